@@ -906,8 +906,12 @@ def tens(e):
 
 
 def cmp_scalar(w, props, inv, got, ref, scale, tol=TOL):
+    real_returned = not isinstance(got, complex) and not np.iscomplexobj(got)
     got = complex(got)
     ref = complex(ref)
+    if real_returned and abs(ref.imag) <= 1.0001e-8 + 1e-5 * abs(ref.real) * 0:
+        # documented: "returns a float if the imaginary part is negligible" (numpy isclose, atol 1e-8)
+        ref = complex(ref.real, 0.0)
     err = abs(got - ref)
     allowed = tol * max(scale, abs(ref), 1e-300)
     w.stats.ratio(inv, err, allowed)
@@ -1384,10 +1388,11 @@ def op_observe2(w, s):
         try:
             try:
                 fast = np.asarray(e.obj.expectations(ops, self_conj=bra_obj, opt=True))
-            except (RuntimeError, ValueError) as ex:
-                # a collision between tensors of different shapes surfaces as a broadcasting ValueError from the
-                # library's own collision test; both are loud refusals, never wrong numbers
-                if hashbits and ("collision" in str(ex) or "broadcast" in str(ex)):
+            except (RuntimeError, ValueError, AssertionError) as ex:
+                # under an injected hash collision the library's own collision test raises RuntimeError, a broadcasting
+                # ValueError (tensors of different shapes) or a shape assertion (broadcast-equal tensors of different
+                # bond dimension): all are loud refusals, never wrong numbers
+                if hashbits:
                     w.stats.faults["hash_collision_raised"] += 1
                     fast = None
                 else:
@@ -1401,7 +1406,11 @@ def op_observe2(w, s):
                 continue
             if got.shape != want.shape:
                 raise V({"C07"}, "C07.expectations.shape", f"{name} path returned shape {got.shape} for {len(ops)} operators")
-            err = float(np.abs(got - want).max())
+            if not np.iscomplexobj(got) and float(np.abs(want.imag).max()) <= 1.0001e-8:
+                # documented: a real result is returned when the imaginary parts are negligible (numpy allclose, atol 1e-8)
+                err = float(np.abs(got - want.real).max())
+            else:
+                err = float(np.abs(got - want).max())
             w.stats.ratio("C07.expectations", err, 1e-9 * max(sc, 1e-300))
             if err > 1e-9 * max(sc, 1e-300):
                 k = int(np.argmax(np.abs(got - want)))
